@@ -150,7 +150,15 @@ def file_data(seed, N, special=None):
 
 SPECIALS = [None, "zero", "int", "sym", "range"]
 SHAPE_COQ = {"ok": "ShapeOk", "smaller": "ShapeSmaller", "broadcast2d": "ShapeBroadcast",
-             "broadcast1": "ShapeBroadcast", "missing": "ShapeMissing"}
+             "broadcast1": "ShapeBroadcast", "missing": "ShapeMissing",
+             "unreadable": "FileUnreadable"}
+WORST = {"rel_err": 0.0, "where": None}      # margin bookkeeping for the evidence
+
+
+def note_err(err, where):
+    if err == err and err > WORST["rel_err"]:
+        WORST["rel_err"] = float(err)
+        WORST["where"] = where
 
 
 def dataset_for(f):
@@ -171,13 +179,29 @@ def dataset_for(f):
     return None
 
 
-def write_dir(root, spec):
-    """spec: {"a_b": {"N":7, "basis":"Chebyshev", "seed":5[, "shape", "bytes", "special"]}}"""
+def write_dir(root, spec, into=None):
+    """spec: {"a_b": {"N":7, "basis":"Chebyshev", "seed":5[, "shape", "bytes", "special"]}}
+    `into`: an existing directory whose collision files are REPLACED IN PLACE by the spec
+    (files regenerated under the same names, files of the old spec that the new one lacks
+    deleted) -- the shipped workflow regenerates CollisionOutput_N<N>_UserGenerated this way"""
     import h5py
-    d = pathlib.Path(tempfile.mkdtemp(dir=root))
+    if into is None:
+        d = pathlib.Path(tempfile.mkdtemp(dir=root))
+    else:
+        d = pathlib.Path(into)
+        d.mkdir(exist_ok=True)
+        keep = {"collisions_%s_%s.hdf5" % tuple(k.split("_")) for k in spec}
+        for old in d.iterdir():
+            if old.name not in keep:
+                old.unlink()
     for key, f in spec.items():
         p1, p2 = key.split("_")
-        with h5py.File(str(d / ("collisions_%s_%s.hdf5" % (p1, p2))), "w") as h:
+        path = d / ("collisions_%s_%s.hdf5" % (p1, p2))
+        if f.get("shape") == "unreadable":      # exists, but is not HDF5 (a git-lfs pointer)
+            path.write_text("version https://git-lfs.github.com/spec/v1\n"
+                            "oid sha256:%064x\nsize 165960\n" % f["seed"])
+            continue
+        with h5py.File(str(path), "w") as h:
             m = h.create_dataset("metadata", data=np.zeros(1))
             m.attrs["Basis Size"] = f["N"]
             m.attrs["Basis Type"] = np.bytes_(f["basis"].encode()) if f.get("bytes") \
@@ -190,8 +214,10 @@ def write_dir(root, spec):
 
 def particle(name):
     import WallGo
-    return WallGo.Particle(name=name, index=0, msqVacuum=lambda f: 0.0,
-                           msqDerivative=lambda f: 0.0, statistics="Fermion", totalDOFs=1)
+    return WallGo.Particle(name=name, index=0,
+                           msqVacuum=lambda phi: 0.5 * phi.getField(0) ** 2,
+                           msqDerivative=lambda fields: np.transpose([fields.getField(0)]),
+                           statistics="Fermion", totalDOFs=12)
 
 
 def make_grid(N, kind="plain"):
@@ -213,7 +239,8 @@ def make_solver(N, req, grid="plain"):
     return WallGo.BoltzmannSolver(g, "Cardinal", req, "Spectral")
 
 
-DS_FAULTS = {"ds_smaller": "smaller", "ds_broadcast": None, "ds_missing": "missing"}
+DS_FAULTS = {"ds_smaller": "smaller", "ds_broadcast": None, "ds_missing": "missing",
+             "unreadable": "unreadable"}
 
 
 def gen_dir_spec(rng, names, Ns, basis, fault, seed0, first=None):
@@ -262,10 +289,10 @@ def gen_scenario(rng, idx):
             ops.append(["particles", names])
             continue
         fault = rng.choice(["none", "none", "none", "missing", "size", "basis", "oversized",
-                            "ds_smaller", "ds_broadcast", "ds_missing"])
+                            "ds_smaller", "ds_broadcast", "ds_missing", "unreadable"])
         if fault not in ("none", "oversized") and rng.random() < 0.2:
             fault += "+" + rng.choice(["missing", "size", "basis", "ds_smaller",
-                                       "ds_broadcast", "ds_missing"])
+                                       "ds_broadcast", "ds_missing", "unreadable"])
         if fault == "oversized":
             sizes = [n for n in (3, 5) if n < N]
             if not sizes:
@@ -282,7 +309,8 @@ def gen_scenario(rng, idx):
                                       else set()))
         spec, seed = gen_dir_spec(rng, fnames, Ns, basis, fault, seed,
                                   first="%s_%s" % (names[0], names[0]))
-        ops.append(["load", spec, fault])
+        # half of the loads go to the directory of the previous load, rewritten in place
+        ops.append(["load", spec, fault, rng.random() < 0.5])
     return dict(N=N, req=req, ops=ops)
 
 
@@ -332,12 +360,15 @@ def run_scenario(sc, root):
     b = make_solver(sc["N"], sc["req"])
     obs = []
     last_spec = None
+    last_dir = None
     for op in sc["ops"]:
         if op[0] == "particles":
             b.updateParticleList([particle(n) for n in op[1]])
             continue
         spec = op[1]
-        d = write_dir(root, spec)
+        reuse = len(op) > 3 and op[3] and last_dir is not None
+        d = write_dir(root, spec, into=last_dir if reuse else None)
+        last_dir = d
         before = b.collisionArray
         before_copy = None if before is None else np.array(before[:], copy=True)
         try:
@@ -354,8 +385,8 @@ def run_scenario(sc, root):
                                       np.array_equal(before_copy, np.asarray(after[:])))
         obs.append(dict(kind=kind, detail=detail, unchanged=same,
                         summary=summarize(after, last_spec or {}, sc["N"]),
-                        names=[p.name for p in b.offEqParticles], fault=op[2]))
-        shutil.rmtree(d, ignore_errors=True)
+                        names=[p.name for p in b.offEqParticles],
+                        fault=op[2] + ("@same-path" if reuse else "")))
     return obs
 
 
@@ -587,6 +618,8 @@ def direct_case(ctx, root, P, Ns, bf, Nt, br, seed0, pairwise, names=None, grid=
         err = float(np.max(np.abs(got - ref)) / (np.max(np.abs(ref)) + 1e-300))
         if opts.get("special") == "zero":
             err = float(np.max(np.abs(got)))
+        if err <= 1e-8:
+            note_err(err, "action %s" % bucket)
         if err > 1e-8:
             a, t, u = np.unravel_index(np.argmax(np.abs(got - ref)), ref.shape)
             kind = "interp" if Ns != Nt else ("basis" if bf != br else "plain")
@@ -603,6 +636,8 @@ def direct_case(ctx, root, P, Ns, bf, Nt, br, seed0, pairwise, names=None, grid=
         err = float(np.max(np.abs(refb - L[i, :, :, j])) / (np.max(np.abs(refb)) + 1e-300))
         if opts.get("special") == "zero":
             err = float(np.max(np.abs(L[i, :, :, j])))
+        if err <= 1e-8:
+            note_err(err, "pair block %s" % bucket)
         if err > 1e-8:
             report(ctx, 
                 "pair (%s,%s) of the loaded array is not the transformed file data: P=%d files "
@@ -653,7 +688,7 @@ def fault_sequences(ctx, root, rng, n):
             seq.append(("none", good))
         for _ in range(rng.randint(1, 3)):
             fault = rng.choice(["missing", "size", "basis", "oversized", "missing_dir",
-                                "ds_smaller", "ds_broadcast", "ds_missing"])
+                                "ds_smaller", "ds_broadcast", "ds_missing", "unreadable"])
             if fault == "oversized":
                 if N == 3:
                     fault = "missing"
@@ -666,16 +701,24 @@ def fault_sequences(ctx, root, rng, n):
                 fault = "missing"
             if fault not in ("oversized", "missing_dir") and P >= 2 and rng.random() < 0.25:
                 fault += "+" + rng.choice(["missing", "size", "basis", "ds_smaller",
-                                           "ds_broadcast", "ds_missing"])
+                                           "ds_broadcast", "ds_missing", "unreadable"])
             spec, _ = gen_dir_spec(rng, names, Ns, rng.choice(BASES), fault, 2000 + 20 * t,
                                    first="%s_%s" % (names[0], names[0]))
             seq.append((fault, spec))
-        case = dict(P=P, N=N, req=req, seq=[(f, s) for f, s in seq])
+        if rng.random() < 0.6:      # ... and the files are regenerated correctly at the end
+            good2, _ = gen_dir_spec(rng, names, rng.choice([n_ for n_ in (5, 7) if n_ >= N]),
+                                    rng.choice(BASES), "none", 3000 + 20 * t)
+            seq.append(("none", good2))
+        # every other history keeps ONE directory and rewrites its files in place
+        same_path = rng.random() < 0.5
+        case = dict(P=P, N=N, req=req, seq=[(f, s) for f, s in seq], same_path=same_path)
+        last_dir = None
         for fault, spec in seq:
             if fault == "missing_dir":
                 d = pathlib.Path(root) / "does_not_exist"
             else:
-                d = write_dir(root, spec)
+                d = write_dir(root, spec, into=last_dir if same_path else None)
+                last_dir = d
             before = b.collisionArray
             snap = None if before is None else np.array(before[:], copy=True)
             err = None
@@ -683,23 +726,40 @@ def fault_sequences(ctx, root, rng, n):
                 b.loadCollisions(d)
             except Exception as e:      # noqa: BLE001
                 err = e
-            if fault != "missing_dir":
+            if fault != "missing_dir" and not same_path:
                 shutil.rmtree(d, ignore_errors=True)
-            ctx.count("fault_sequence", dict(case=case, fault=fault), bucket=fault)
+            ctx.count("fault_sequence", dict(case=case, fault=fault),
+                      bucket=fault + ("@same-path" if same_path else ""))
             fkey = fault.split("+")[0] if "+" not in fault else "double"
             dsf = [f for f in fault.split("+") if f.startswith("ds_")]
+            if fault == "unreadable":
+                fkey = "unreadable-file"
             if fault == "none":
                 if err is not None:
                     report(ctx, "fault-free load raised %r" % err,
                                    dict(kind="faults", case=case, at=fault),
                                    key="fault-free-load-raises")
+                else:
+                    # the array now installed holds the numbers of THIS spec (a path-keyed
+                    # cache would hand out those of an earlier one)
+                    sm = summarize(b.collisionArray, spec, N)
+                    note_err(sm["worst"], "fault_sequences")
+                    if not all(v[1] for v in sm["blocks"].values()):
+                        report(ctx, "after regenerating the collision files%s and loading "
+                               "again, the installed array does not hold the numbers now on "
+                               "disk; P=%d grid N=%d" % (
+                                   " IN PLACE (same directory path)" if same_path else "",
+                                   P, N),
+                               dict(kind="faults", case=case, at=fault),
+                               key="stale-numbers" + (":same-path" if same_path else ""))
                 continue
             if err is None:
                 report(ctx, "load with fault `%s` raised nothing [%s]" % (
                     fault, json.dumps(case)[:300]),
                     dict(kind="faults", case=case, at=fault),
                     key=("malformed-dataset:" + dsf[0][3:]) if dsf and len(dsf) == len(
-                        fault.split("+")) else "fault-not-reported:" + fkey)
+                        fault.split("+")) else ("unreadable-file" if fault == "unreadable"
+                                               else "fault-not-reported:" + fkey))
                 continue
             kind = classify(err)
             if kind != "CollisionLoadError":
@@ -711,7 +771,8 @@ def fault_sequences(ctx, root, rng, n):
                          for k, v in spec.items()}),
                     dict(kind="faults", case=case, at=fault, raised=exc_name(err)),
                     key=("malformed-dataset:" + dsf[0][3:]) if dsf and len(dsf) == len(
-                        fault.split("+")) else "error-kind:" + fkey)
+                        fault.split("+")) else ("unreadable-file" if fault == "unreadable"
+                                               else "error-kind:" + fkey))
             after = b.collisionArray
             if after is not before or (before is not None and
                                        not np.array_equal(snap, np.asarray(after[:]))):
@@ -720,6 +781,46 @@ def fault_sequences(ctx, root, rng, n):
                     "previously loaded array (collisionArray is %s); P=%d grid N=%d" % (
                         fault, "None" if after is None else "another object", P, N),
                     dict(kind="faults", case=case, at=fault), key="atomicity")
+
+
+def evaluate_pointwise(ctx, P, Ns, Nt, seed):
+    """metamorphic: Polynomial.evaluate on all target points at once == the stack of its
+    single-point evaluations (any blocking / chunking / caching scheme must satisfy this),
+    on the array sizes of the shipped files"""
+    import WallGo
+    from WallGo.collisionArray import CollisionArray
+    from WallGo.polynomial import Polynomial
+    src = WallGo.Grid(3, Ns, 1.0, 1.0)
+    tgt = WallGo.Grid(3, Nt, 1.0, 1.0)
+    D = np.random.default_rng(seed).normal(size=(P, Ns - 1, Ns - 1, P, Ns - 1, Ns - 1))
+    poly = Polynomial(D, src, ("Array", "Cardinal", "Cardinal", "Array", "Chebyshev",
+                               "Chebyshev"), CollisionArray.AXIS_TYPES, endpoints=False)
+    pts = np.array(np.meshgrid(tgt.rzValues, tgt.rpValues, indexing="ij")).reshape(
+        (2, (Nt - 1) ** 2))
+    allp = np.asarray(poly.evaluate(pts, (1, 2)))
+    lz, lp = interp_mats(Ns, Nt)
+    worst = 0.0
+    worst_ref = 0.0
+    scale = float(np.max(np.abs(allp))) + 1e-300
+    idx = list(range(pts.shape[1]))
+    for q in idx:
+        one = np.asarray(poly.evaluate(pts[:, q], (1, 2)))
+        worst = max(worst, float(np.max(np.abs(one - allp[q]))) / scale)
+        a_, b_ = divmod(q, Nt - 1)
+        ref = np.einsum("x,y,axybjk->abjk", lz[a_], lp[b_], D)
+        worst_ref = max(worst_ref, float(np.max(np.abs(ref - allp[q]))) / scale)
+    ctx.count("evaluate_pointwise", dict(P=P, Ns=Ns, Nt=Nt), bucket="P%d %d->%d (%.1e el.)" % (
+        P, Ns, Nt, pts.shape[1] * D.size))
+    case = dict(P=P, Ns=Ns, Nt=Nt, seed=seed)
+    if worst > 1e-12 or worst_ref > 1e-9 or allp.shape != (pts.shape[1], P, P, Ns - 1, Ns - 1):
+        report(ctx, "Polynomial.evaluate on all %d target points at once differs from its own "
+               "point-by-point evaluation (max rel. diff %.3g) / from the Lagrange reference "
+               "(%.3g): collision array P=%d stored N=%d -> target N=%d (%.2g expanded "
+               "elements)" % (pts.shape[1], worst, worst_ref, P, Ns, Nt,
+                              pts.shape[1] * D.size),
+               dict(kind="evaluate_pointwise", case=case), key="evaluate-all-vs-pointwise")
+    else:
+        note_err(worst_ref, "evaluate_pointwise")
 
 
 def _action(arr, f):
@@ -950,6 +1051,79 @@ def history_case(ctx, root, case):
                        key="error-kind:no-interpolation")
         shutil.rmtree(dq, ignore_errors=True)
         ctx.count("history", dict(case=case, step="bInterpolate"), bucket="bInterpolate=False")
+        # (h) the consumer: build the linear system once on the loaded solver; the collision
+        #     term must be T(xi)^2 x the loaded numbers, and building it must not touch them
+        try:
+            M = b.grid.M
+            v = -np.ones(M + 1) / np.sqrt(3) + 0.01 * np.sin(np.arange(M + 1))
+            bg = WallGo.BoltzmannBackground(
+                velocityMid=0.5 * (v[0] + v[-1]), velocityProfile=v,
+                fieldProfiles=WallGo.Fields((1.0 + 0.1 * np.arange(M + 1))[:, None]),
+                temperatureProfile=100.0 + np.arange(M + 1), polynomialBasis="Cardinal")
+            b.setBackground(bg)
+            for _ in range(2):
+                coll = b.buildLinearEquations()[3]
+                Tb = np.asarray(b.background.temperatureProfile)[1:-1]
+                exp = np.zeros_like(coll)
+                for x in range(M - 1):
+                    exp[:, x, :, :, :, x, :, :] = b.collisionMultiplier * Tb[x] ** 2 * snap
+                errc = float(np.max(np.abs(exp - coll)) / (np.max(np.abs(exp)) + 1e-300))
+                if errc > 1e-12:
+                    report(ctx, "BoltzmannSolver.buildLinearEquations: the collision term is not "
+                           "T^2 x the loaded collision array (rel. diff %.3g); P=%d grid N=%d "
+                           "basis %s" % (errc, P, Nt, br),
+                           dict(kind="history", case=case, step="linear-system"),
+                           key="consumer:collision-term")
+                    break
+                intact("buildLinearEquations")
+        except Exception as e:      # noqa: BLE001
+            report(ctx, "buildLinearEquations on a loaded solver raised %s: %s" % (
+                exc_name(e), str(e)[:80]), dict(kind="history", case=case,
+                                                step="linear-system"),
+                key="consumer:raises")
+        # (g) ONE directory path, two solvers taking turns, files regenerated / deleted in
+        #     place between the loads (Models/wallGoExampleBase.py regenerates
+        #     CollisionOutput_N<N>_UserGenerated for every benchmark point and reloads it)
+        solvers = [make_solver(Nt, br), make_solver(Nt, br)]
+        for sv in solvers:
+            sv.updateParticleList([particle(x) for x in names])
+        dpath = None
+        for rnd in range(4):
+            sv = solvers[rnd % 2]
+            flt = "none" if rnd != 2 else rng.choice(["missing", "ds_missing", "unreadable"])
+            spec_g, _ = gen_dir_spec(rng, names, Ns, bf, flt, seed0 + 2000 + 100 * rnd)
+            dpath = write_dir(root, spec_g, into=dpath)
+            held = sv.collisionArray
+            err_g = None
+            try:
+                sv.loadCollisions(dpath)
+            except Exception as e:      # noqa: BLE001
+                err_g = e
+            ctx.count("history", dict(case=case, step="same-path", rnd=rnd),
+                      bucket="same-path:" + flt)
+            rp = dict(kind="history", case=case, step="same-path-%d" % rnd)
+            if flt == "none":
+                sm = None if err_g is not None else summarize(sv.collisionArray, spec_g, Nt)
+                if sm is None or not all(v[1] for v in sm["blocks"].values()):
+                    report(ctx, "collision files regenerated IN PLACE (same directory path, "
+                           "load no. %d on that path): %s; P=%d files N=%d %s -> grid N=%d %s" % (
+                               rnd + 1, "the load raised " + exc_name(err_g) if err_g is not None
+                               else "the installed array holds other numbers than the files "
+                               "now on disk (rel. err %.3g)" % sm["worst"], P, Ns, bf, Nt, br),
+                           rp, key="stale-numbers:same-path")
+                elif sm is not None:
+                    note_err(sm["worst"], "same-path history")
+            else:
+                if err_g is None:
+                    report(ctx, "a collision file was deleted / corrupted IN PLACE (%s) in a "
+                           "directory loaded before: the load raised nothing and installed an "
+                           "array; P=%d grid N=%d" % (flt, P, Nt), rp,
+                           key="fault-not-reported:same-path")
+                elif classify(err_g) != "CollisionLoadError" or sv.collisionArray is not held:
+                    report(ctx, "same-path history, fault `%s`: raised %s, array kept: %s" % (
+                        flt, exc_name(err_g), sv.collisionArray is held), rp,
+                        key="unreadable-file" if flt == "unreadable" and
+                        sv.collisionArray is held else "atomicity")
 
 
 def manager_route(ctx, root, rng, n):
@@ -966,13 +1140,19 @@ def manager_route(ctx, root, rng, n):
         Ns = rng.choice([n_ for n_ in (5, 7) if n_ >= N])
         bf = rng.choice(BASES)
         seed0 = rng.randrange(10 ** 6)
-        for fault in ["none", rng.choice(["missing", "size", "basis", "ds_missing",
-                                          "ds_smaller", "ds_broadcast"])]:
+        # one manager, one collision directory whose files are rewritten in place between the
+        # calls: good, faulty, good again with other numbers
+        steps = []
+        for k, fault in enumerate(["none", rng.choice(["missing", "size", "basis", "ds_missing",
+                                                       "ds_smaller", "ds_broadcast",
+                                                       "unreadable"]), "none"]):
             if P == 1 and fault in ("size", "basis"):
                 fault = "missing"
-            spec, _ = gen_dir_spec(rng, names, Ns, bf, fault, seed0)
-            manager_case(ctx, root, dict(P=P, names=names, N=N, Ns=Ns, stored_basis=bf,
-                                         fault=fault, spec=spec))
+            spec, _ = gen_dir_spec(rng, names, Ns, bf, fault, seed0 + 50 * k)
+            steps.append([fault, spec])
+        manager_case(ctx, root, dict(P=P, names=names, N=N, Ns=Ns, stored_basis=bf,
+                                     steps=steps, entry=rng.choice(["solveWall",
+                                                                    "setupWallSolver"])))
 
 
 def manager_case(ctx, root, case):
@@ -980,68 +1160,86 @@ def manager_case(ctx, root, case):
     import types
     from WallGo.manager import WallGoManager, WallSolverSettings
     P, names, N, Ns = case["P"], case["names"], case["N"], case["Ns"]
-    bf, fault, spec = case["stored_basis"], case["fault"], case["spec"]
-    if True:
-        if True:
-            d = write_dir(root, spec)
-            m = WallGoManager()
-            m.setVerbosity(logging.ERROR)
-            m.setPathToCollisionData(d)
-            m.phasesAtTn = types.SimpleNamespace(temperature=100.0)
-            m.hydrodynamics = object()
-            m.model = types.SimpleNamespace(
-                outOfEquilibriumParticles=[particle(x) for x in names])
-            m.isModelValid = lambda: True
-            grid = make_grid(N, "3scales")
-            m.buildGrid = lambda *a, **k: grid
-            m.buildEOM = lambda g, solver, mfp: types.SimpleNamespace(includeOffEq=None)
-            err = None
-            ws = None
-            try:
-                ws = m.setupWallSolver(WallSolverSettings(bIncludeOffEquilibrium=True))
-            except Exception as e:      # noqa: BLE001
-                err = e
-            shutil.rmtree(d, ignore_errors=True)
-            ctx.count("manager_route", case, bucket=fault)
-            rp = dict(kind="manager", case=case)
-            if fault == "none":
-                if err is not None:
-                    report(ctx, "WallGoManager.setupWallSolver on a fault-free directory "
-                           "raised %s: %s" % (exc_name(err), str(err)[:80]), rp,
-                           key="manager:fault-free-raises")
-                    return
-                ca = ws.boltzmannSolver.collisionArray
-                ok = ca is not None and ws.eom.includeOffEq is True and \
-                    ca.getBasisType() == ws.boltzmannSolver.basisN
-                if ok:
-                    arr = np.asarray(ca[:])
-                    for i, j in itertools.product(range(P), repeat=2):
-                        fl = spec["%s_%s" % (names[i], names[j])]
-                        refb = reference_block(file_data(fl["seed"], Ns), Ns, bf, N,
-                                               ca.getBasisType())
-                        ok = ok and arr.shape[0] == P and float(
-                            np.max(np.abs(refb - arr[i, :, :, j])) /
-                            (np.max(np.abs(refb)) + 1e-300)) < 1e-8
-                if not ok:
-                    report(ctx, "WallGoManager.setupWallSolver (off-equilibrium requested, "
-                           "fault-free directory) did not install the complete array of the "
-                           "files: collisionArray %s, includeOffEq=%r" % (
-                               "None" if ca is None else "present", ws.eom.includeOffEq), rp,
-                           key="manager:incomplete")
+    bf = case["stored_basis"]
+    steps = case.get("steps") or [[case["fault"], case["spec"]]]
+    entry = case.get("entry", "setupWallSolver")
+    d = None
+    m = WallGoManager()
+    m.setVerbosity(logging.ERROR)
+    m.phasesAtTn = types.SimpleNamespace(temperature=100.0)
+    m.hydrodynamics = object()
+    m.model = types.SimpleNamespace(outOfEquilibriumParticles=[particle(x) for x in names])
+    m.isModelValid = lambda: True
+    grid = make_grid(N, "3scales")
+    m.buildGrid = lambda *a, **k: grid
+    built = []
+
+    def build_eom(g, solver, mfp):
+        eom = types.SimpleNamespace(includeOffEq=None, solver=solver,
+                                    findWallVelocityDeflagrationHybrid=lambda t: "RESULT")
+        built.append(eom)
+        return eom
+    m.buildEOM = build_eom
+    for fault, spec in steps:
+        d = write_dir(root, spec, into=d)
+        m.setPathToCollisionData(d)
+        del built[:]
+        err = None
+        ws = None
+        try:
+            settings = WallSolverSettings(bIncludeOffEquilibrium=True)
+            if entry == "solveWall":
+                res = m.solveWall(settings)
+                ws = types.SimpleNamespace(eom=built[-1], boltzmannSolver=built[-1].solver) \
+                    if built else None
+                if res != "RESULT":
+                    ws = None
             else:
-                if err is None:
-                    ca = ws.boltzmannSolver.collisionArray
-                    report(ctx, "WallGoManager.setupWallSolver with off-equilibrium requested "
-                           "and a faulty collision directory (%s) raised nothing: "
-                           "collisionArray is %s, eom.includeOffEq=%r -- the wall would be "
-                           "solved without (or with wrong) collisions; P=%d grid N=%d" % (
-                               fault, "None" if ca is None else "installed",
-                               ws.eom.includeOffEq, P, N), rp, key="manager:silent-" + (
-                               "lte" if ca is None else "wrong-array"))
-                elif classify(err) != "CollisionLoadError":
-                    report(ctx, "WallGoManager.setupWallSolver, fault `%s`: raised %s instead "
-                           "of CollisionLoadError" % (fault, exc_name(err)), rp,
-                           key="manager:error-kind")
+                ws = m.setupWallSolver(settings)
+        except Exception as e:      # noqa: BLE001
+            err = e
+        ctx.count("manager_route", dict(case=case, fault=fault), bucket=entry + ":" + fault)
+        rp = dict(kind="manager", case=case, at=fault)
+        where = "WallGoManager.%s" % entry
+        if fault == "none":
+            if err is not None or ws is None:
+                report(ctx, "%s on a fault-free directory raised %s: %s" % (
+                    where, "nothing" if err is None else exc_name(err), str(err)[:80]), rp,
+                    key="manager:fault-free-raises")
+                continue
+            ca = ws.boltzmannSolver.collisionArray
+            ok = ca is not None and ws.eom.includeOffEq is True and \
+                ca.getBasisType() == ws.boltzmannSolver.basisN
+            if ok:
+                arr = np.asarray(ca[:])
+                for i, j in itertools.product(range(P), repeat=2):
+                    fl = spec["%s_%s" % (names[i], names[j])]
+                    refb = reference_block(file_data(fl["seed"], fl["N"]), fl["N"], bf, N,
+                                           ca.getBasisType())
+                    e_ = float(np.max(np.abs(refb - arr[i, :, :, j])) /
+                               (np.max(np.abs(refb)) + 1e-300)) if arr.shape[0] == P else 1.0
+                    if e_ < 1e-8:
+                        note_err(e_, "manager_route")
+                    ok = ok and e_ < 1e-8
+            if not ok:
+                report(ctx, "%s (off-equilibrium requested, fault-free directory, files "
+                       "rewritten in place between calls) did not install the complete array of "
+                       "the files now on disk: collisionArray %s, includeOffEq=%r" % (
+                           where, "None" if ca is None else "present", ws.eom.includeOffEq), rp,
+                       key="manager:incomplete")
+        else:
+            if err is None:
+                ca = ws.boltzmannSolver.collisionArray if ws is not None else None
+                report(ctx, "%s with off-equilibrium requested and a faulty collision directory "
+                       "(%s) raised nothing: collisionArray is %s, eom.includeOffEq=%r -- the "
+                       "wall would be solved without (or with wrong) collisions; P=%d grid N=%d"
+                       % (where, fault, "None" if ca is None else "installed",
+                          ws.eom.includeOffEq if ws is not None else None, P, N), rp,
+                       key="manager:silent-" + ("lte" if ca is None else "wrong-array"))
+            elif classify(err) != "CollisionLoadError":
+                report(ctx, "%s, fault `%s`: raised %s instead of CollisionLoadError" % (
+                    where, fault, exc_name(err)), rp,
+                    key="unreadable-file" if fault == "unreadable" else "manager:error-kind")
 
 
 def all_sources():
@@ -1054,6 +1252,7 @@ def all_sources():
 
 
 def run(ctx):
+    WORST.update(rel_err=0.0, where=None)
     srcs = all_sources()
     gen_ok = True
     try:
@@ -1172,6 +1371,10 @@ def run(ctx):
         # non-sorted order, special tensors
         extra = [
             dict(P=1, Ns=9, Nt=3), dict(P=2, Ns=11, Nt=5), dict(P=1, Ns=11, Nt=11),
+            # the stored sizes that are shipped (11, 15, 19, 21): 1e7 and more expanded
+            # elements in Polynomial.evaluate
+            dict(P=1, Ns=21, Nt=11, once=True), dict(P=2, Ns=21, Nt=5, once=True),
+            dict(P=2, Ns=15, Nt=9, once=True), dict(P=1, Ns=19, Nt=11, once=True),
             dict(P=2, Ns=7, Nt=5, grid="3scales"), dict(P=2, Ns=5, Nt=5, grid="3scales"),
             dict(P=2, Ns=7, Nt=5, grid="uniform"),
             dict(P=2, Ns=7, Nt=5, opts=dict(bytes=True)),
@@ -1180,17 +1383,28 @@ def run(ctx):
         ] + [dict(P=2, Ns=7, Nt=5, opts=dict(special=sp_)) for sp_ in SPECIALS[1:]] + \
             [dict(P=2, Ns=5, Nt=5, opts=dict(special=sp_)) for sp_ in ("int", "zero")]
         if not ctx.quick:
-            extra += [dict(P=2, Ns=13, Nt=7), dict(P=1, Ns=21, Nt=11),
+            extra += [dict(P=2, Ns=13, Nt=7), dict(P=1, Ns=21, Nt=11), dict(P=2, Ns=19, Nt=9),
+                      dict(P=1, Ns=15, Nt=15),
                       dict(P=3, Ns=11, Nt=7, grid="3scales", names=["W", "top", "gluon"]),
                       dict(P=2, Ns=9, Nt=5, grid="uniform")]
         for e in extra:
-            for bf, br in (itertools.product(BASES, BASES) if not ctx.quick else
-                           [(rng.choice(BASES), rng.choice(BASES)),
-                            ("Chebyshev", "Chebyshev")]):
+            combos_ = itertools.product(BASES, BASES) if not ctx.quick else \
+                [(rng.choice(BASES), rng.choice(BASES)), ("Chebyshev", "Chebyshev")]
+            if e.get("once") and ctx.quick:
+                combos_ = [(rng.choice(BASES), rng.choice(BASES))]
+            for bf, br in combos_:
                 guarded(e["P"], e["Ns"], bf, e["Nt"], br, rng.randrange(10 ** 6),
                         e["P"] == 2 and e["Ns"] <= 7, names=e.get("names"),
                         grid=e.get("grid", "plain"), opts=e.get("opts"))
         fault_sequences(ctx, root, rng, ctx.n(40, 400))
+        try:
+            for P_, Ns_, Nt_ in [(1, 21, 11), (2, 15, 9)] + \
+                    ([] if ctx.quick else [(2, 21, 7), (1, 19, 11), (3, 11, 5)]):
+                evaluate_pointwise(ctx, P_, Ns_, Nt_, rng.randrange(10 ** 6))
+        except Exception as e:      # noqa: BLE001
+            import traceback
+            ctx.log("evaluate_pointwise raised", traceback.format_exc())
+            ctx.broken.append("harness: evaluate_pointwise raised %r" % e)
         try:
             histories(ctx, root, rng, ctx.n(8, 80))
             manager_route(ctx, root, rng, ctx.n(5, 50))
@@ -1200,6 +1414,11 @@ def run(ctx):
             ctx.broken.append("harness: history run raised %r" % e)
     finally:
         shutil.rmtree(root, ignore_errors=True)
+    ctx.cov["worst_rel_err"] = dict(value=WORST["rel_err"], where=WORST["where"],
+                                    tolerance=1e-8,
+                                    margin=(1e-8 / WORST["rel_err"]) if WORST["rel_err"] else None)
+    ctx.log("worst relative error of a passing comparison against the reference: %.3g (%s); "
+            "tolerance 1e-8" % (WORST["rel_err"], WORST["where"]))
     for key, cnt in sorted(getattr(ctx, "_c14_seen", {}).items()):
         if cnt > 1:
             ctx.log("failing inputs of class %s: %d in total (first one reported)" % (key, cnt))
@@ -1249,6 +1468,9 @@ def replay(rep):
             direct_case(c, root, k["P"], k["Ns"], k["stored_basis"], k["Nt"],
                         k["requested_basis"], k["seed0"], True, names=k.get("names"),
                         grid=k.get("grid", "plain"), opts=k.get("opts"))
+        elif rep.get("kind") == "evaluate_pointwise":
+            k = rep["case"]
+            evaluate_pointwise(c, k["P"], k["Ns"], k["Nt"], k["seed"])
         elif rep.get("kind") == "history":
             history_case(c, root, rep["case"])
         elif rep.get("kind") == "manager":
@@ -1257,15 +1479,22 @@ def replay(rep):
             k = rep["case"]
             b = make_solver(k["N"], k["req"])
             b.updateParticleList([particle(x) for x in NAMES[:k["P"]]])
+            last_dir = None
             for fault, spec in k["seq"]:
-                fault = fault.split("+")[0] if fault == "missing_dir" else fault
-                d = pathlib.Path(root) / "does_not_exist" if fault == "missing_dir" \
-                    else write_dir(root, spec)
+                if fault == "missing_dir":
+                    d = pathlib.Path(root) / "does_not_exist"
+                else:
+                    d = write_dir(root, spec, into=last_dir if k.get("same_path") else None)
+                    last_dir = d
                 before = b.collisionArray
                 try:
                     b.loadCollisions(d)
                     print(fault, "-> loaded")
                     if fault != "none":
+                        c.failed = True
+                    elif not all(v[1] for v in summarize(b.collisionArray, spec,
+                                                         k["N"])["blocks"].values()):
+                        print("   but the installed array is not the one now on disk")
                         c.failed = True
                 except Exception as e:      # noqa: BLE001
                     print(fault, "->", exc_name(e), "| array kept:",
